@@ -1,6 +1,7 @@
 CONSTANTS
   Comp = {"a", "b"}
   MaxDepth = 2
+  OpenFlags = {26, 42}
   BatchMembers <- MCBatch
   MaxTape = 4
   Chunks = {"c1"}
